@@ -334,6 +334,7 @@ func rulePutKeyFlow(p *Prog, r *Result) {
 				return
 			}
 			ok2 := false
+			sameKey := true
 			for _, ref := range *al.Referrers() {
 				fa, isFA := ref.(*ssa.FieldAddr)
 				if !isFA {
@@ -371,9 +372,19 @@ func rulePutKeyFlow(p *Prog, r *Result) {
 					if fromKey {
 						ok2 = true
 					}
+					// ... and it is the very key that is written: the same value the function hands back as the pair's key
+					fnc := c.Parent()
+					for _, b := range fnc.Blocks {
+						if ret := retOf(b); ret != nil && len(ret.Results) >= 2 && !isNilConst(retVal(ret, 0)) {
+							if stripConv(retVal(ret, 0)) != stripConv(st.Val) {
+								sameKey = false
+							}
+						}
+					}
 				}
 			}
 			r.add(ok2, key, p.InstrPos(c), "`key` inside a PUT value expression must be this pair's evaluated key")
+			r.add(sameKey, key+"|same-as-written", p.InstrPos(c), "the key the value expression sees is the key that is written for this pair (one conversion of the evaluated key, used for both)")
 		})
 	}
 	if found == 0 {
